@@ -29,23 +29,10 @@ Definition comment_texts_ok (x : xml) : bool :=
   forallb (fun cl => forallb (fun c => forallb has_text (desc_with T_T c)) (children cl))
           (kids_with T_COMMENTLIST x).
 
-(* G-localSheetId: every localSheetId is below the number of sheets (`sheets[index]`) *)
-Definition local_sheet_ids_ok (doc : xml) : bool :=
-  let n := Z.of_nat (length (desc_with T_SHEET doc)) in
-  forallb (fun dn => match attr A_LOCALSHEETID dn with Some (VNum i) => i <? n | _ => true end)
-          (desc_with T_DEFINEDNAME doc).
-
 Definition id_matches (v : aval) (r : xml) : bool :=
   match attr A_ID r with Some i => aval_eqb i v | None => false end.
 Definition is_ws_node (r : xml) : bool :=
   match attr A_TYPE r with Some t => ty_class t =? 0 | None => false end.
-
-(* G-rid: every sheet's r:id is the Id of some relationship (`rels[&sheet.id]`) *)
-Definition rids_resolve (doc rd : xml) : bool :=
-  forallb (fun s => match attr A_RID s with
-                    | Some v => existsb (id_matches v) (desc_with T_RELATIONSHIP rd)
-                    | None => true
-                    end) (desc_with T_SHEET doc).
 
 (* G-target: comments / table targets of sheet relationships survive `replace_range(..2, _)` *)
 Definition srel_node_ok (x : xml) : bool :=
@@ -58,19 +45,15 @@ Definition srel_node_ok (x : xml) : bool :=
   | _, _ => true
   end.
 
-(* G-dir + G-sheetData: the Target of every worksheet relationship contains "/worksheets/"
-   (`v[1]`) and the part it names, if it is an XML document, has a <sheetData> child (`[0]`) *)
+(* G-dir: the Target of every worksheet relationship contains "/worksheets/" (`v[1]`).
+   (The <sheetData> conjunct was dropped when 2db1935 turned the `[0]` into an error.) *)
 Definition ws_rel_ok (p : pkg) (r : xml) : bool :=
   if is_ws_node r then
     match attr A_TARGET r with
     | Some g =>
       match ws_part g with
       | None => false
-      | Some part =>
-        match lookup part (p_parts p) with
-        | Some (Tree ws) => nonempty (kids_with T_SHEETDATA ws)
-        | _ => true
-        end
+      | Some _ => true
       end
     | None => true
     end
@@ -91,10 +74,9 @@ Definition guard (p : pkg) : bool :=
   tree_ok (fun ss => styles_containers ss && all_nodes color_ok ss) (p_styles p) &&
   forallb (fun kf => tree_ok (fun x => all_nodes color_ok x && comment_texts_ok x) (snd kf)) (p_parts p) &&
   forallb (fun kf => tree_ok (fun d => forallb srel_node_ok (kids_with T_RELATIONSHIP d)) (snd kf)) (p_srels p) &&
-  tree_ok local_sheet_ids_ok (p_wb p) &&
   match p_wb p, p_rels p with
   | Tree doc, Tree rd =>
-    rids_resolve doc rd && forallb (ws_rel_ok p) (desc_with T_RELATIONSHIP rd) && names_have_sheet doc rd
+    forallb (ws_rel_ok p) (desc_with T_RELATIONSHIP rd) && names_have_sheet doc rd
   | _, _ => true
   end.
 
@@ -400,26 +382,19 @@ Proof.
   - exfalso. apply (IH I E). reflexivity.
 Qed.
 
-Lemma defined_name_skel_np n x :
-  (match attr A_LOCALSHEETID x with Some (VNum i) => i <? n | _ => true end) = true ->
-  defined_name_skel n x <> Panic.
+Lemma defined_name_skel_np n x : defined_name_skel n x <> Panic.
 Proof.
-  intros H. unfold defined_name_skel. apply obind_np; [apply req_np|]. intros _ _.
+  unfold defined_name_skel. apply obind_np; [apply req_np|]. intros _ _.
   destruct (attr A_LOCALSHEETID x) as [v|]; [|discriminate].
-  apply obind_np; [apply parse_in_np|]. intros i Hi.
-  destruct v; cbn [parse_usize parse_in] in Hi; try discriminate.
-  destruct (_ && _); [|discriminate]. inversion Hi; subst.
-  rewrite H. discriminate.
+  apply obind_np; [apply parse_in_np|]. intros i _. destruct (i <? n); discriminate.
 Qed.
 
-Lemma load_workbook_np f : tree_ok local_sheet_ids_ok f = true -> load_workbook_skel f <> Panic.
+Lemma load_workbook_np f : load_workbook_skel f <> Panic.
 Proof.
-  destruct f as [| |doc]; cbn [tree_ok load_workbook_skel]; try discriminate.
-  intros H. apply obind_np; [apply omap_np; intros; apply sheet_skel_np|].
+  destruct f as [| |doc]; cbn [load_workbook_skel]; try discriminate.
+  apply obind_np; [apply omap_np; intros; apply sheet_skel_np|].
   intros rids Hr. apply obind_np; [|intros; discriminate].
   apply oiter_np. intros x Hx. apply defined_name_skel_np.
-  unfold local_sheet_ids_ok in H. rewrite forallb_forall in H.
-  rewrite (omap_length _ _ _ Hr). apply H. exact Hx.
 Qed.
 
 Lemma load_workbook_inv f rids n :
@@ -521,11 +496,9 @@ Qed.
 
 Lemma load_sheet_skel_np parts g :
   parts_ok parts = true ->
-  (forall part ws, ws_part g = Some part -> lookup part parts = Some (Tree ws) ->
-                   nonempty (kids_with T_SHEETDATA ws) = true) ->
   load_sheet_skel parts g <> Panic.
 Proof.
-  intros Hp Hsd. unfold load_sheet_skel. apply obind_np; [apply open_part_np|].
+  intros Hp. unfold load_sheet_skel. apply obind_np; [apply open_part_np|].
   intros ws Hws. destruct (parts_ok_open _ _ _ Hp Hws) as [Hc _].
   apply open_part_inv in Hws as [part [Hg L]].
   apply obind_np.
@@ -537,7 +510,7 @@ Proof.
     destruct (kids_with T_TABCOLOR pr) as [|tab [|? ?]] eqn:Et; try discriminate.
     apply color_skel_np'. eapply all_color_kid; [|rewrite Et; left; reflexivity].
     eapply all_color_kid; [exact Hc|rewrite E; left; reflexivity]. }
-  intros _ _. apply obind_np; [apply first_or_panic_np; eapply Hsd; eassumption|].
+  intros _ _. apply obind_np; [destruct (kids_with T_SHEETDATA ws); discriminate|].
   intros sd _. apply obind_np; [apply oiter_np; intros; apply row_skel_np|].
   intros _ _. apply obind_np.
   { destruct (kids_with T_MERGECELLS ws) as [|m [|? ?]]; try discriminate. np. }
@@ -576,65 +549,46 @@ Theorem guard_no_panic : forall p, guard p = true -> load_skel p <> Panic.
 Proof.
   intros p G. unfold guard in G.
   apply andb_true_iff in G as [G Gx].
-  apply andb_true_iff in G as [G Gwb].
   apply andb_true_iff in G as [G Gsr].
   apply andb_true_iff in G as [Gst Gp].
   unfold load_skel.
   apply obind_np; [destruct (p_sst p); discriminate|]. intros _ _.
-  apply obind_np; [apply load_workbook_np; exact Gwb|]. intros [rids ndn] Hwb.
+  apply obind_np; [apply load_workbook_np|]. intros [rids ndn] Hwb.
   apply obind_np; [apply load_rels_np|]. intros rels Hrels.
   apply obind_np; [apply load_styles_np; exact Gst|]. intros _ _.
   apply load_workbook_inv in Hwb as [doc [Ewb [Hrids Hn]]].
   apply load_rels_inv in Hrels as [rd [Erd Hrl]].
   rewrite Ewb, Erd in Gx.
-  apply andb_true_iff in Gx as [Gx Gnames].
-  apply andb_true_iff in Gx as [Grid Gws].
+  apply andb_true_iff in Gx as [Gws Gnames].
   cbn [fst snd].
-  (* every r:id resolves, and to a relationship node that satisfies ws_rel_ok *)
-  assert (Hfound : forall rid, In rid rids ->
-            exists rel node, rel_lookup rid rels = Some rel /\ In node (desc_with T_RELATIONSHIP rd) /\
-                             rel_skel node = Ok rel).
-  { intros rid Hin.
-    destruct (omap_out _ _ _ _ Hrids Hin) as [s [Hs Es]].
-    apply sheet_skel_rid in Es.
-    unfold rids_resolve in Grid. rewrite forallb_forall in Grid. specialize (Grid _ Hs).
-    rewrite Es in Grid. apply existsb_exists in Grid as [node [Hnode Hm]].
-    destruct (omap_in _ _ _ _ Hrl Hnode) as [r [Er Ir]].
-    rewrite (id_matches_rel _ _ _ Er) in Hm.
-    destruct (rel_lookup rid rels) as [rel|] eqn:El.
-    - destruct (rel_lookup_in _ _ _ El) as [Irel _].
-      destruct (omap_out _ _ _ _ Hrl Irel) as [node' [Hn' En']].
-      exists rel, node'. auto.
-    - exfalso. eapply rel_lookup_some; eassumption. }
+  (* a relationship that is found comes from a Relationship node *)
+  assert (Hfound : forall rid rel, rel_lookup rid rels = Some rel ->
+            exists node, In node (desc_with T_RELATIONSHIP rd) /\ rel_skel node = Ok rel).
+  { intros rid rel El. destruct (rel_lookup_in _ _ _ El) as [Irel _].
+    destruct (omap_out _ _ _ _ Hrl Irel) as [node [Hnd End]]. exists node. auto. }
   assert (Hloop : forall (body : aval -> outcome unit),
             (forall rel node, In node (desc_with T_RELATIONSHIP rd) -> rel_skel node = Ok rel ->
                               is_worksheet_rel rel = true -> body (r_target rel) <> Panic) ->
             oiter (fun rid => obind (rel_index rels rid) (fun rel =>
                      if is_worksheet_rel rel then body (r_target rel) else Ok tt)) rids <> Panic).
   { intros body Hbody. apply oiter_np. intros rid Hin.
-    destruct (Hfound _ Hin) as [rel [node [El [Hnode Er]]]].
-    unfold rel_index. rewrite El. cbn [obind].
+    unfold rel_index. destruct (rel_lookup rid rels) as [rel|] eqn:El; cbn [obind]; [|discriminate].
+    destruct (Hfound _ _ El) as [node [Hnode Er]].
     destruct (is_worksheet_rel rel) eqn:Ew; [|discriminate].
     eapply Hbody; eassumption. }
   assert (Hwsrel : forall rel node, In node (desc_with T_RELATIONSHIP rd) -> rel_skel node = Ok rel ->
-            is_worksheet_rel rel = true ->
-            exists part, ws_part (r_target rel) = Some part /\
-              forall ws, lookup part (p_parts p) = Some (Tree ws) -> nonempty (kids_with T_SHEETDATA ws) = true).
+            is_worksheet_rel rel = true -> ws_part (r_target rel) <> None).
   { intros rel node Hnode Er Ew.
     rewrite forallb_forall in Gws. specialize (Gws _ Hnode). unfold ws_rel_ok in Gws.
     rewrite (is_ws_node_rel _ _ Er), Ew in Gws.
     destruct (rel_skel_inv _ _ Er) as [_ [_ Et]]. rewrite Et in Gws.
-    destruct (ws_part (r_target rel)) as [part|]; [|discriminate].
-    exists part. split; [reflexivity|]. intros ws L. rewrite L in Gws. exact Gws. }
+    destruct (ws_part (r_target rel)); [discriminate|discriminate Gws]. }
   apply obind_np.
   { unfold load_sheets_skel. apply obind_np.
     - apply Hloop. intros rel node Hnode Er Ew.
-      destruct (Hwsrel _ _ Hnode Er Ew) as [part [Ep _]].
-      apply load_sheet_rels_skel_np; [exact Gp|exact Gsr|congruence].
+      apply load_sheet_rels_skel_np; [exact Gp|exact Gsr|eapply Hwsrel; eassumption].
     - intros _ _. apply Hloop. intros rel node Hnode Er Ew.
-      destruct (Hwsrel _ _ Hnode Er Ew) as [part [Ep Hsd]].
-      apply load_sheet_skel_np; [exact Gp|].
-      intros part' ws Ep' L. rewrite Ep in Ep'. inversion Ep'; subst. apply Hsd; exact L. }
+      apply load_sheet_skel_np; exact Gp. }
   intros _ _.
   (* reparse_formula_hack *)
   destruct (0 <? ndn) eqn:Ednn; [|discriminate]. cbn [andb].
@@ -645,10 +599,14 @@ Proof.
     cbn in Hn. subst ndn. discriminate. }
   apply existsb_exists in Gn as [s [Hs Gn]].
   destruct (attr A_RID s) as [v|] eqn:Ev; [|discriminate].
-  apply andb_true_iff in Gn as [_ Gall]. rewrite forallb_forall in Gall.
+  apply andb_true_iff in Gn as [Gex Gall]. rewrite forallb_forall in Gall.
   destruct (omap_in _ _ _ _ Hrids Hs) as [v' [Ev' Iv']].
   pose proof (sheet_skel_rid _ _ Ev') as Ev''. rewrite Ev in Ev''. inversion Ev''; subst v'.
-  destruct (Hfound _ Iv') as [rel [node [El [Hnode Er]]]].
+  apply existsb_exists in Gex as [node0 [Hnode0 Hm0]].
+  destruct (omap_in _ _ _ _ Hrl Hnode0) as [r0 [Er0 Ir0]].
+  rewrite (id_matches_rel _ _ _ Er0) in Hm0.
+  destruct (rel_lookup v rels) as [rel|] eqn:El; [|exfalso; eapply rel_lookup_some; eassumption].
+  destruct (Hfound _ _ El) as [node [Hnode Er]].
   destruct (rel_lookup_in _ _ _ El) as [_ Em].
   specialize (Gall _ Hnode). rewrite (id_matches_rel _ _ _ Er), Em in Gall. cbn [implb] in Gall.
   rewrite (is_ws_node_rel _ _ Er) in Gall.
